@@ -12,7 +12,9 @@ RULE = ("exhaustive at the bound: write_all / read_exact with request lengths 0.
         "patterns above; write / flush / read with every reported count 0..len+1 and Err x 4 entry points x Pending "
         "0,1,2; buffer contents, bytes stored by the interface (exact, short, long: scribbling beyond the reported "
         "count); plus LONG requests (255..70000 bytes, thorough: ..200000) through every entry point with the interface "
-        "taking everything, all but one byte, 65535, half or a random count per call; error codes, addresses random from the seed; real BufferOperation on a scripted (Async)BufferInterface "
+        "taking everything, all but one byte, 65535, half or a random count per call; plus sequences of 2..5 single-call "
+        "operations (write/read/flush, fixed shapes such as flush,flush and write,flush,flush first) on ONE operation object x 4 "
+        "entry points vs the per-call model; error codes, addresses random from the seed; real BufferOperation on a scripted (Async)BufferInterface "
         "vs extracted Coq model (calls with slice contents, result, caller's slice afterwards, panics, poll counts); "
         "distinct = (entry point, operation, request length, per-call slice lengths, outcome kind) classes")
 
@@ -25,6 +27,19 @@ def run(ctx):
     # long requests (seed C10-8: an async write clamped to a 16-bit transfer counter)
     lines += pc.buf_big_cases(rng, pc.BIG_LENGTHS if ctx.tier == "quick" else pc.BIG_LENGTHS + (131071, 131072, 200000))
     stats, diffs, err = pc.correspondence(ctx, lines, "B")
+    # sequences of calls on ONE operation object vs the per-call model (the contract is per call)
+    nseq, sdiffs = (0, [])
+    if not err and not diffs:
+        nseq, sdiffs = pc.run_buf_seqs(ctx, pc.buf_seq_cases(rng, 60 if ctx.tier == "quick" else 600))
+        stats["evaluations"] += nseq
+        stats["histogram"]["sequences_on_one_operation_object"] = nseq
+        if sdiffs:
+            q, a, want = sorted(sdiffs, key=lambda d: len(d[0]))[0]
+            vlib.violation(ctx, {"what": "a sequence of buffer calls on ONE BufferOperation object differs from the per-call model: a call's "
+                                         "behaviour depends on what was called before it on the same object",
+                                 "failing_input": {"case_line": q, "reading": "Q <entry point s|t|a|u> <address> <op:caller bytes;...> <interface "
+                                                   "script: one answer per call>"},
+                                 "implementation": a, "model_and_spec": want, "disagreements": len(sdiffs)})
     pc.report(ctx, info, stats, diffs, err, "C10", THEOREMS, RULE % (maxlen, fullp),
               "buffer.rs disagrees with the proven model of the embedded-io contracts (calls, result, delivered bytes or panic)",
               extra_assumptions=["the provided trait methods write_all/read_exact are code of embedded-io(-async) 0.6.1 (transcribed from "
@@ -32,5 +47,20 @@ def run(ctx):
 
 
 def replay(ctx, path):
+    import json
+    try:
+        line = (json.load(open(path)).get("failing_input") or {}).get("case_line") or ""
+    except (OSError, ValueError):
+        line = ""
+    if line.startswith("Q "):
+        # a sequence on one operation object: the runner executes it, the model is asked call by call
+        ent, addr, items, scr = line.split(" ")[1:5]
+        ents = scr.split(",")
+        bl = [f"B {ent} {it.split(':')[0]} {addr} {it.split(':')[1]} {ents[i]}" for i, it in enumerate(items.split(";"))]
+        n, d = pc.run_buf_seqs(ctx, [(line, bl)])
+        ctx.log("sequence:", line, "->", "DIFFERS" if d else "agrees")
+        if d:
+            vlib.violation(ctx, {"failing_input": {"case_line": line}, "implementation": d[0][1], "model_and_spec": d[0][2]})
+        return
     if not pc.replay(ctx, path, "C10"):
         run(ctx)
